@@ -223,7 +223,7 @@ def has_cycle(tuples, items):
 BASE_NS = dict(reach_plus=reach_plus, on_cycle=on_cycle, has_cycle=has_cycle, seq=seq, setof=setof, no_dups=no_dups, addall=addall, filt=filt, index=index, count=count, prefix=prefix,
                cat=cat, rev=rev, is_tuple=is_tuple, pair=pair, contents=contents, keys=keys, dget=dget, dhas=dhas,
                implies=implies, ite=ite, call=call, rng=rng, truth=truth, typeis=typeis, isinst=isinst, idof=id,
-               allocated=lambda x: True, fresh=lambda x: True, values=lambda d: SeqV(d.values()))
+               allocated=lambda x: True, listof=lambda x: x, intof=lambda x: x, fresh=lambda x: True, values=lambda d: SeqV(d.values()))
 
 
 def flatten_universe(vals, depth=3):
